@@ -231,6 +231,37 @@ def o5(chk, repo, models):
                 if "surfaces" not in it and "sections" not in it:
                     continue
                 acc = _acc_updates(loop)
+                # ---- persistent storage accumulated over the surfaces: partials[k] += e / outputs[k] -= e
+                sacc = {}
+                for n in _ast.walk(_ast.Module(body=loop.body, type_ignores=[])):
+                    if isinstance(n, _ast.AugAssign) and isinstance(n.op, (_ast.Add, _ast.Sub)) and isinstance(n.target, _ast.Subscript) and isinstance(n.target.value, _ast.Name) and n.target.value.id in ("partials", "outputs", "J", "residuals"):
+                        sacc.setdefault(_unparse(n.target), []).append(n)
+                for tkey, ups in sacc.items():
+                    # only totals over the list: the key must not contain the per-surface name
+                    if any(isinstance(x_, _ast.Name) and x_.id not in ("partials", "outputs", "J", "residuals") for x_ in _ast.walk(ups[0].target.slice)):
+                        continue
+                    key = "%s.%s: accumulated storage %s (loop at line %d)" % (c.name, mname, tkey, loop.lineno)
+                    bad = []
+                    for n in _ast.walk(_ast.Module(body=loop.body, type_ignores=[])):
+                        tg = []
+                        if isinstance(n, _ast.Assign):
+                            tg = [(t, "=") for t in n.targets]
+                        elif isinstance(n, _ast.AugAssign):
+                            tg = [(n.target, type(n.op).__name__)]
+                        for t, op in tg:
+                            base, sub = t, False
+                            while isinstance(base, _ast.Subscript) and _unparse(base) != tkey:
+                                base = base.value
+                                sub = True
+                            if not (isinstance(base, _ast.Subscript) and _unparse(base) == tkey):
+                                continue
+                            if n in ups or (sub and op in ("Add", "Sub")):
+                                continue
+                            bad.append((n.lineno, _unparse(n)[:80]))
+                    if bad:
+                        chk.violation("O5", key, where(c, bad[0][0]), "the total %s accumulated over the surface list is also modified by '%s' inside the loop: the contributions of the surfaces listed earlier are overwritten / rescaled, so the result depends on the order of the surfaces" % (tkey, bad[0][1]))
+                    else:
+                        chk.ok("O5", key, where(c, loop.lineno), "only commutative additions")
                 if not acc:
                     continue
                 # accumulators must be bound before the loop (running totals), not per-iteration temporaries
